@@ -80,7 +80,90 @@ def cases(rng, tier):
     out += _print_cases(rng, 60 if tier == "quick" else 600)
     out += _slice_cases(rng, 150 if tier == "quick" else 2000)
     out += _repeat_cases(rng, 300 if tier == "quick" else 4000)
+    out += _xd_cases(rng, 150 if tier == "quick" else 2000)
     return out
+
+
+XD_UFUNCS = {"add": ["int64", "uint64", "float64", "float32"], "multiply": ["int64", "uint64", "float64", "float32"],
+             "bitwise_and": ["int8", "uint8", "uint16", "int32", "int64", "uint64", "bool"], "bitwise_or": ["int8", "uint8", "uint16", "int64", "bool"],
+             "bitwise_xor": ["uint8", "uint16", "int64"], "logical_and": ["int64", "float64", "bool", "uint8"], "logical_or": ["int64", "float64", "bool"],
+             "maximum": ["int64", "float64", "uint8"]}
+
+
+def _xd_cases(rng, n):
+    """the same row-wise reduction on UNRELATED arrays of different element types, one after the other in one process (and with
+    further such reductions inserted in between): every result is what numpy gives row by row -- nothing an earlier reduction of
+    another array left behind may enter a later one"""
+    out = []
+    def step(uf):
+        dt = rng.choice(XD_UFUNCS[uf])
+        lens = [rng.choice([0, 1, 2, 3]) for _ in range(rng.randint(1, 5))]
+        if uf == "maximum":
+            lens = [max(l, 1) for l in lens]
+        return {"uf": uf, "dtype": dt, "lens": lens, "vseed": rng.randint(0, 9999), "form": rng.randint(0, 1)}
+    for _ in range(n):
+        ufs = [rng.choice(list(XD_UFUNCS)) for _ in range(2)]
+        main = [step(u) for u in ufs for _ in range(2)]
+        rng.shuffle(main)
+        extra = [[step(rng.choice(ufs)) for _ in range(rng.randint(0, 2))] for _ in main]
+        out.append({"xd": {"main": main, "extra": extra}})
+    return out
+
+
+def _xd_rows(st):
+    import numpy as np
+    rnd = random.Random(st["vseed"])
+    dt = np.dtype(st["dtype"])
+    uf = st["uf"]
+    def cell():
+        if dt.kind == "b":
+            return rnd.random() < 0.6
+        if uf == "add":
+            return rnd.randint(0, 3)
+        if uf == "multiply":
+            return rnd.randint(1, 3)
+        if uf.startswith("logical"):
+            return rnd.choice([0, 1, 2])
+        if dt.kind == "f":
+            return rnd.choice([0.5, 1.5, -2.0, 4.0])
+        info = np.iinfo(dt)
+        return rnd.choice([info.max, info.max - 1, info.max // 2 + 1, 1, 5, 1023 & info.max, info.min, 0])
+    return [np.array([cell() for _ in range(l)], dtype=dt) for l in st["lens"]]
+
+
+def _xd_one(st):
+    import numpy as np, warnings
+    from npstructures import RaggedArray
+    rows = _xd_rows(st)
+    flat = np.concatenate(rows) if rows else np.zeros(0, dtype=st["dtype"])
+    ra = RaggedArray(flat.astype(st["dtype"]), list(st["lens"]))
+    uf = getattr(np, st["uf"])
+    with np.errstate(all="ignore"), warnings.catch_warnings():
+        warnings.simplefilter("ignore")
+        if st["form"] and st["uf"] in ("add", "logical_and", "logical_or", "multiply", "maximum"):
+            r = getattr(ra, {"add": "sum", "logical_and": "all", "logical_or": "any", "multiply": "prod", "maximum": "max"}[st["uf"]])(axis=-1)
+        else:
+            r = uf.reduce(ra, axis=-1)
+        r = np.asarray(r)
+        want = np.array([uf.reduce(x) for x in rows])
+    return [str(r.dtype), r.tolist()], [str(want.dtype), want.tolist()]
+
+
+def _run_xd(q, with_reads):
+    got, want = [], []
+    for st, ex in zip(q["main"], q["extra"]):
+        if with_reads:
+            for e in ex:
+                try:
+                    _xd_one(e)
+                except Exception:
+                    pass
+        try:
+            g, w = _xd_one(st)
+        except Exception as e:
+            g, w = ["refused", type(e).__name__], None
+        got.append(g); want.append(w)
+    return got, want
 
 
 SLICE_READS = ["str", "sum", "tolist", "iter", "ravel", "len", "row", "neg", "nothing"]
@@ -412,7 +495,7 @@ def _run_mask(q, with_reads):
 
 
 def key(p):
-    if "mk" in p or "pr" in p or "rs" in p or "rp" in p:
+    if "mk" in p or "pr" in p or "rs" in p or "rp" in p or "xd" in p:
         return engine.stable_hash(p)
     if "fl" in p:
         return engine.stable_hash(p)
@@ -420,19 +503,20 @@ def key(p):
 
 
 def nontrivial(p):
-    if "fl" in p or "mk" in p or "pr" in p or "rs" in p or "rp" in p:
+    if "fl" in p or "mk" in p or "pr" in p or "rs" in p or "rp" in p or "xd" in p:
         return True
     kinds = [s["s"] for s in p["prog"]]
     return "assign" in kinds and "select" in kinds
 
 
 def distribution(ps):
+    fl_all = list(ps)
     fl = [p for p in ps if "fl" in p]
     mk = [p for p in ps if "mk" in p]
     pr = [p for p in ps if "pr" in p]
     rs = [p for p in ps if "rs" in p]; rp = [p for p in ps if "rp" in p]
-    ps = [p for p in ps if "fl" not in p and "mk" not in p and "pr" not in p and "rs" not in p and "rp" not in p]
-    return {"window_then_write_cases": len(rs), "repeat_after_allocations_cases": len(rp), "repeat_ops": gens.hist(p["rp"]["op"] for p in rp),
+    ps = [p for p in ps if "fl" not in p and "mk" not in p and "pr" not in p and "rs" not in p and "rp" not in p and "xd" not in p]
+    return {"cross_array_reduction_cases": sum(1 for p in fl_all if "xd" in p), "window_then_write_cases": len(rs), "repeat_after_allocations_cases": len(rp), "repeat_ops": gens.hist(p["rp"]["op"] for p in rp),
             "print_state_cases": len(pr), "print_cells": gens.hist(sum(p["pr"]["lens"]) for p in pr),
             "mask_alias_write_cases": len(mk), "mask_write_kinds": gens.hist(p["mk"]["write"] for p in mk),
             "float_alias_write_cases": len(fl), "float_alias_kinds": gens.hist(p["fl"]["alias"] for p in fl),
@@ -456,6 +540,13 @@ def run_impl(p):
             r = _run_repeat(p["rp"])
             return {"k": "obs", "equal": {"k": "py", "v": r[0]}, "detail": {"k": "py", "v": None if r[0] else r[1:]}}
         return guarded(hr)
+    if "xd" in p:
+        def hx():
+            plain, want = _run_xd(p["xd"], False)
+            withreads, _ = _run_xd(p["xd"], True)
+            ok = plain == withreads and plain == want
+            return {"k": "obs", "equal": {"k": "py", "v": ok}, "detail": {"k": "py", "v": None if ok else [plain, withreads, want]}}
+        return guarded(hx)
     if "pr" in p:
         def hp():
             plain = _run_print(p["pr"], False)
@@ -490,7 +581,7 @@ def run_impl(p):
 
 
 def oracle(p):
-    if "rs" in p or "rp" in p:
+    if "rs" in p or "rp" in p or "xd" in p:
         return {"k": "obs", "equal": {"k": "py", "v": True}}
     if "pr" in p:
         return {"k": "obs", "equal": {"k": "py", "v": True}}
@@ -509,10 +600,12 @@ def _ins_prog(p):
 
 
 def lean_request(p):
-    if "fl" in p or "mk" in p or "pr" in p or "rs" in p or "rp" in p:
+    if "fl" in p or "mk" in p or "pr" in p or "rs" in p or "rp" in p or "xd" in p:
         return None
     # the Lean model runs the history with ONE extra read statement inserted; its observation is dropped afterwards
     from props import c06
+    if any(st["s"] == "unique" for st in p["prog"]):
+        return None
     return {"op": "Heap.run", "prog": c06.lean_prog(_ins_prog(p))}
 
 
